@@ -26,9 +26,9 @@ ANCHORS = ["raggedarray/base.py::RaggedBase._change_view", "raggedarray/base.py:
            "raggedshape.py::RaggedView.get_flat_indices", "raggedshape.py::RaggedView2._get_flat_indices"]
 LAZY_OBS = ["row", "elem", "rowscol", "ell", "empty", "maskidx", "subset", "padded", "getcol", "colcounts", "sum0", "sum1", "nonzero", "tolist", "sel", "cumsum", "diff",
             "sort", "unique", "concatself", "where", "zeros", "astype", "equals", "save", "tonp", "argmax1", "rslice", "repr", "meta"]
-FLOOR_TAGS = ["dtype:float64", "dtype:int64"] + ["lazy-recv:" + o for o in LAZY_OBS] + ["view:RaggedView", "view:RaggedView2", "lazy-operand:assign:u", "lazy-operand:sel:u", "lazy-operand:ufra:u", "lazy-operand:concat:w",
+FLOOR_TAGS = ["dtype:float64", "dtype:int64"] + ["lazy-recv:" + o for o in LAZY_OBS] + ["lazy-operand:assign:u", "lazy-operand:sel:u", "lazy-operand:ufra:u", "lazy-operand:concat:w",
                                                      "depth>=3", "class:A", "class:B"]
-FLOOR_MONITORS = ["c06:L=M", "c06:F=M", "c06:L=F", "purity-tap", "inv:ragged"]
+FLOOR_MONITORS = ["c06:L=M", "c06:F=M", "c06:L=F", "purity-tap"]
 N_RANDOM = {"quick": 9000, "thorough": 200000}
 
 
